@@ -77,7 +77,8 @@ def gen_case(seed, idx):
         opts["lower"] = True
     if rng.random() < 0.3:
         opts["alias"] = ["proj = The Project", "ver = 1.2.3"]
-    case = {"world": w, "options": opts, "layout": lay, "exclude": rng.random() < 0.3, "two_includes": rng.random() < 0.3, "fixed_form": rng.random() < 0.25, "pages": rng.random() < 0.35 and lay == "normal",
+    case = {"world": w, "options": opts, "layout": lay, "exclude": rng.random() < 0.3, "two_includes": rng.random() < 0.3, "fixed_form": rng.random() < 0.25, "odd_shapes": rng.random() < 0.3,
+            "many_files": rng.random() < 0.15, "pages": rng.random() < 0.35 and lay == "normal",
             "media": rng.random() < 0.25 and lay == "normal", "extra_ft": rng.random() < 0.2, "idx": idx}
     return case
 
@@ -106,6 +107,24 @@ def build_files(case, seed):
         else:
             argv += ["-o", "out"]
         out = "p/out"
+    if case.get("odd_shapes"):
+        # unusual but legal shapes: a file name with a blank and dots, a directory with a blank, CRLF line
+        # ends, tabs, no final newline, non-ASCII text in documentation comments
+        keys = sorted(k for k in files if k.endswith(".f90"))
+        if keys:
+            k0 = keys[0]
+            files[os.path.dirname(k0) + "/my file.v2.f90"] = files.pop(k0)
+        if len(keys) > 1:
+            k1 = keys[1]
+            files[os.path.dirname(k1) + "/sub dir/" + os.path.basename(k1)] = files.pop(k1).replace("\n", "\r\n")
+        if len(keys) > 2:
+            k2 = keys[2]
+            files[k2] = files[k2].replace("  !! ", "\t!! caf\u00e9 \u2192 na\u00efve ").rstrip("\n")
+    if case.get("many_files"):
+        base = "p/src/" if lay == "normal" else "p/"
+        for q in range(14):
+            files[base + "many/mm%02d.f90" % q] = ("module mm%02d\n  !! one of many small modules\n%s  implicit none\n  integer :: mmv%02d\nend module mm%02d\n"
+                                                  % (q, "  use mm%02d\n" % (q - 1) if q % 3 else "", q, q))
     if case.get("exclude"):
         base = "p/src/" if lay == "normal" else "p/"
         files[base + "skipme.f90"] = "module skipme\n  !! excluded by the project file\nend module skipme\n"
@@ -452,7 +471,7 @@ def case_candidates(case):
         c["world"] = w
         if w["mods"]:
             yield desc, c
-    for k in ("pages", "media", "extra_ft", "exclude", "two_includes", "fixed_form"):
+    for k in ("pages", "media", "extra_ft", "exclude", "two_includes", "fixed_form", "odd_shapes", "many_files"):
         if case.get(k):
             c = copy.deepcopy(case)
             c[k] = False
